@@ -1014,8 +1014,13 @@ fn constructors(t: &mut Tally, rng: &mut Rng, maxn: usize) {
                             let exact = Dd::new(start) + (Dd::new(stop) - Dd::new(start)) * (i as f64) / ((num - 1) as f64);
                             worst = worst.max((Dd::new(x) - exact).f().abs());
                         }
-                        t.note_max("worst_ratio.linspace.spacing", worst / tol);
-                        t.check(id!("linspace", "spacing"), regime, worst <= tol, &|| d("points equally spaced (4 eps * max(|start|,|stop|))"));
+                        // interior points: how they are formed (start + i*width, a running sum of num-1 rounded
+                        // additions, interpolation from both ends) is not pinned down; a running sum is the least
+                        // accurate admissible scheme, one rounding error of size <= eps/2 * scale per step
+                        let tol_sp = (num as f64 + 4.0) * f64::EPSILON * scale;
+                        t.note_max("worst_ratio.linspace.spacing", worst / tol_sp);
+                        t.note_max("info.worst_ratio.linspace.spacing_vs_4eps", worst / tol);
+                        t.check(id!("linspace", "spacing"), regime, worst <= tol_sp, &|| d("points equally spaced ((num + 4) eps * max(|start|,|stop|))"));
                     }
                 }
             }
@@ -1063,7 +1068,8 @@ fn constructors(t: &mut Tally, rng: &mut Rng, maxn: usize) {
                 t.check(id!("arange", "count"), regime, count_ok, &|| json!({"call": what(), "observed_count": cnt, "expected_count": expected, "observed_tail": jf(&v[v.len().saturating_sub(3)..]), "failed": "every point of [start, stop) on the grid is present"}));
                 let inside = v.iter().all(|&x| if step > 0.0 { x >= start && x < stop } else { x <= start && x > stop });
                 t.check(id!("arange", "in_range"), regime, inside, &|| json!({"call": what(), "observed": jf(&v)}));
-                let tol = 4.0 * f64::EPSILON * start.abs().max(stop.abs());
+                // as for linspace: a running sum of rounded additions is admissible
+                let tol = (v.len() as f64 + 4.0) * f64::EPSILON * start.abs().max(stop.abs());
                 let mut worst = 0.0f64;
                 for (i, &x) in v.iter().enumerate() {
                     let exact = Dd::new(start) + Dd::prod(i as f64, step);
@@ -1072,7 +1078,7 @@ fn constructors(t: &mut Tally, rng: &mut Rng, maxn: usize) {
                 if !v.is_empty() && tol > 0.0 {
                     t.note_max("worst_ratio.arange.spacing", worst / tol);
                 }
-                t.check(id!("arange", "spacing"), regime, worst <= tol, &|| json!({"call": what(), "observed": jf(&v), "failed": "x_i = start + i*step (4 eps * max(|start|,|stop|))"}));
+                t.check(id!("arange", "spacing"), regime, worst <= tol, &|| json!({"call": what(), "observed": jf(&v), "failed": "x_i = start + i*step ((len + 4) eps * max(|start|,|stop|))"}));
             }
         }
     }
@@ -1995,7 +2001,7 @@ pub fn run(cfg: &Cfg, rep: &mut Report) {
     for r in PROGRAM_REGIMES.iter().chain(OTHER_REGIMES.iter()) {
         if cfg.miri()
             && (r.contains("invalid-args") || r.contains("mismatch") || r.contains("out-of-range") || r.contains("nondividing") || r.contains("triangular:") || r.contains("is_symmetric:non-square")
-                || ["arange:", "linspace:", "vec_reshape:", "new:", "diag:"].iter().any(|p| r.starts_with(p)))
+                || ["arange:", "linspace:", "vec_reshape:", "new:", "diag:", "is_", "close_to:", "eq:", "mat_eq:"].iter().any(|p| r.starts_with(p)))
         {
             continue; // the smoke run (about 600 operations, 3 constructor cases) cannot be sure to reach the rare classes
         }
